@@ -376,6 +376,11 @@ func (g *generator) args(module, verb string, nfaces int) (*mgmt.ControlArgs, st
 }
 
 func (g *generator) command(nfaces int) opCmd {
+	if g.chance(0.015) {
+		// a Data packet whose name looks like a command
+		n := enc.Name{gen("localhost"), gen("nfd"), gen("rib"), gen("register"), gen("x")}
+		return opCmd{isData: true, inFace: g.inFace(nfaces), name: n, label: "data-packet"}
+	}
 	module := moduleNames[g.r.Intn(len(moduleNames))]
 	verb := g.verb(module)
 	if g.chance(0.03) {
